@@ -130,10 +130,20 @@ Definition run_c17 (l : list N) : list N :=
   | _ => err_marker
   end.
 
+(* kind 9: bits kp addr -> entry, address, partial key, chunk index, recovered key prefix *)
+Definition run_c09 (l : list N) : list N :=
+  match l with
+  | [bits; kp; addr] =>
+      let e := entry_new bits addr (extract_key bits kp) in
+      [e; entry_address bits e; pk_of bits e; chunk_index bits kp; recover_key_prefix bits (chunk_index bits kp) e]
+  | _ => err_marker
+  end.
+
 Definition dispatch (l : list N) : list N :=
   match l with
   | 19 :: rest => run_c19 rest
   | 1 :: rest => run_hist rest
   | 17 :: rest => run_c17 rest
+  | 9 :: rest => run_c09 rest
   | _ => err_marker
   end.
